@@ -6,6 +6,7 @@ import (
 	"container/list"
 	"errors"
 	"fmt"
+	"io"
 	"log"
 	"os"
 	"slices"
@@ -27,6 +28,10 @@ var (
 const (
 	minAllocContexts = 16
 )
+
+// stdin is the one buffered reader all READ instructions share, so that what
+// one read() buffered is still there for the next.
+var stdin = bufio.NewReader(os.Stdin)
 
 type context struct {
 	ip       int                           // instruction pointer
@@ -504,9 +509,8 @@ func (vm *Type) Run(retResult bool) (value.Type, error) {
 			}
 
 		case bytecode.READ:
-			b := bufio.NewReader(os.Stdin)
-			line, err := b.ReadString('\n')
-			if err != nil {
+			line, err := stdin.ReadString('\n')
+			if err != nil && (err != io.EOF || line == "") {
 				return vm.dumpStack(ctxp, ip, fmt.Errorf("read error %w", err))
 			}
 			m.Push(value.NewString(line))
